@@ -567,6 +567,9 @@ func mergeFamily(r *rng, nRandom int, seedBase uint64) []namedSched {
 			// become simulated tasks and this is their preemption density
 			PreemptDen: []uint32{0, 2, 4, 16}[r.intn(4)],
 			MaxSteps:   5_000_000,
+			// ambient faults: only matter if the merger reads a clock or the environment
+			ClockDen:   []uint32{0, 2, 5}[r.intn(3)],
+			ClockKinds: 0b11110,
 		}
 		fam = append(fam, namedSched{fmt.Sprintf("random-%d", i), cfg})
 	}
